@@ -10,12 +10,13 @@ package main
 // about the old and the new value and, if the item entered or left its view, has handed its ADD / REMOVE
 // to its consumer - so the observed subscriber's read mask, equivalence check and delivery run strictly
 // AFTER the neighbours' adaptation of the shared event. The writer starts the next write only when the
-// observed subscriber has left its include calls. All waits are bounded (patience.go); a wait that runs
-// out only loses the forcing. The observed subscriber is judged by the usual no-dup-delivery monitor.
+// observed subscriber has left its include calls. All waits are bounded (one second); a wait that runs
+// out only loses the forcing for the rest of that run. The observed subscriber is judged by the usual no-dup-delivery monitor.
 
 import (
 	"context"
 	"sync"
+	"sync/atomic"
 	"time"
 
 	"github.com/smart-core-os/sc-golang/pkg/resource"
@@ -36,20 +37,42 @@ type nbSync struct {
 	calls  int  // include calls per subscriber for the event at hand: (old exists) + (new exists)
 	ns     []*neighbour
 	oCalls int // include calls the observed subscriber has completed for the event at hand
+	// a wait ran out (the code under test left the protocol, e.g. asked a predicate fewer times than the
+	// event has values): no more forcing in this run, the deliveries are judged as they come
+	gaveUp bool
 }
 
-func spinFor(cond func() bool) bool {
-	d := patience.limit(lossyWait)
-	deadline := time.Now().Add(d)
+// nbGiveUps: forcing waits that ran out in this process; after nbMaxGiveUps of them no run forces any more
+// (a tree that leaves the protocol must not stall the run).
+var nbGiveUps atomic.Int32
+
+const nbMaxGiveUps = 5
+
+// wait: bounded by one second (everything waited for happens in this process, within microseconds); the
+// first wait that runs out ends the forcing for the run.
+func (s *nbSync) wait(cond func() bool) {
+	s.mu.Lock()
+	gaveUp := s.gaveUp
+	s.mu.Unlock()
+	if gaveUp || nbGiveUps.Load() >= nbMaxGiveUps {
+		return
+	}
+	deadline := time.Now().Add(time.Second)
 	for i := 0; ; i++ {
-		if cond() {
-			return true
+		s.mu.Lock()
+		ok := cond()
+		s.mu.Unlock()
+		if ok {
+			return
 		}
 		if time.Now().After(deadline) {
-			patience.ranOut(d)
-			return false
+			s.mu.Lock()
+			s.gaveUp = true
+			s.mu.Unlock()
+			nbGiveUps.Add(1)
+			return
 		}
-		if i < 50 {
+		if i < 100 {
 			time.Sleep(20 * time.Microsecond)
 		} else {
 			time.Sleep(time.Millisecond)
@@ -77,11 +100,7 @@ func (s *nbSync) begin(oldExists, newExists bool) {
 // leave its include calls.
 func (s *nbSync) end(published bool) {
 	if published {
-		spinFor(func() bool {
-			s.mu.Lock()
-			defer s.mu.Unlock()
-			return s.oCalls >= s.calls
-		})
+		s.wait(func() bool { return s.oCalls >= s.calls })
 	}
 	s.mu.Lock()
 	s.active = false
@@ -120,9 +139,7 @@ func (s *nbSync) observedInclude(inc *incSpec) resource.FilterFunc {
 		if !active {
 			return r
 		}
-		spinFor(func() bool {
-			s.mu.Lock()
-			defer s.mu.Unlock()
+		s.wait(func() bool {
 			for _, n := range s.ns {
 				if !n.done || n.got < n.expected {
 					return false
